@@ -1154,7 +1154,7 @@ func includeChains() {
 	}
 }
 
-// ---------- probes for the two lexer deviations the streams avoid ----------
+// ---------- probes for the three lexer deviations the streams avoid ----------
 
 func probes() {
 	run := func(text string) string {
@@ -1171,6 +1171,17 @@ func probes() {
 		Viol("C06/comment-in-parentheses/rdata-word-retyped",
 			fmt.Sprintf("a comment inside parentheses changes the result: without it %s, with it %s", without, with),
 			map[string]any{"text_hex": Hs("a 5 TXT ( x ; comment\n ns )\n")})
+	}
+	// a line break inside parentheses that is not next to a blank: by RFC 1035 5.1 it separates the two
+	// items like a blank ("line terminations are not recognized within parentheses"); the lexer drops it
+	// and joins the items
+	joined := run("a 5 TXT ( x\ny )\n")
+	spaced := run("a 5 TXT ( x \n y )\n")
+	stat["probe_checked"]++
+	if joined != spaced {
+		Viol("C06/line-break-in-parentheses/items-joined",
+			fmt.Sprintf("a bare line break inside parentheses changes the result: with blanks %s, without %s", spaced, joined),
+			map[string]any{"text_hex": Hs("a 5 TXT ( x\ny )\n")})
 	}
 	// a relative $ORIGIN argument that spells a type mnemonic
 	got := run("$ORIGIN a\nb 5 A 192.0.2.1\n")
